@@ -1,6 +1,8 @@
 """C11 - state responses decode to exactly the reported state."""
 from __future__ import annotations
 
+import asyncio
+
 from .. import harness as H
 from ..ref import acstate
 from ..simdev import SimDevice
@@ -9,12 +11,12 @@ from msmart.device import AirConditioner as AC
 
 ID = "C11"
 LEVEL = "exploration"
-RULE = ("a case = one raw 0xC0 body reported by the simulated device (either trailing-check style) to a refresh() of a FRESH "
-        "AirConditioner; public attributes are compared with the independent vendor-layout decode (mv/ref/acstate.decode_0xC0). "
+RULE = ("a case = one raw 0xC0 body reported by the simulated device (either trailing-check style) to a refresh() of an "
+        "AirConditioner (fresh, or with the history below); public attributes are compared with the independent vendor-layout decode (mv/ref/acstate.decode_0xC0). "
         "Temperature rules as stated: None <=> 0xFF; otherwise |t - (raw-50)/2| < 1; in Celsius a non-zero tenths digit is reflected "
         "exactly. Optional fields are present iff their offset < len(body). Exhaustive: 256 x 10 (byte, tenths) per sensor per unit, "
         "32 x 32 setpoint codes, all 256 values of bytes 1,2,7,8,9,10,13,14, fan 0..127, lengths 16..40 x both check styles; plus seeded "
-        "random bodies. distinct = distinct body bytes; all non-trivial. Mode/swing values outside the enumerations are not judged")
+        "random bodies; every value 0..255 of the trailing check byte (both styles) and of the frame checksum; histories on one object: a longer report before a shorter one, the same report twice with local never-applied edits in between, an unsolicited report pushed on the idle connection before the state changes and the refresh happens. distinct = distinct body bytes; all non-trivial. Mode/swing values outside the enumerations are not judged")
 ASSUMPTIONS = ["'payload' = frame[10:-2]; a field is present iff its offset < len(payload)",
                "fan byte generated in 0..127; tenths nibbles generated in 0..9",
                "aux heat = byte 9 bit 3; independent aux = byte 8 bit 6; turbo = byte 8 bit 5 or byte 10 bit 1; "
@@ -89,9 +91,48 @@ def _with_history(ctx, rng):
         yield _rand_body(rng, rng.randint(16, 40)), rng.choice(["crc", "sum"]), _rand_body(rng, rng.randint(16, 40))
 
 
+def _check_values(ctx, rng):
+    """Bodies whose trailing check byte (either style) / whose frame checksum takes every value 0..255."""
+    from ..ref import acframe
+    for v in range(256):
+        for chk in ("crc", "sum"):
+            b = _rand_body(rng, rng.choice([19, 23, 24, 30]))
+            for x in range(65536):
+                b[17], b[18] = x & 0xFF, x >> 8
+                c = acframe.crc8(bytes(b)) if chk == "crc" else acframe.checksum(bytes(b))
+                if c == v:
+                    break
+            yield {"body": bytes(b), "check": chk, "label": f"body-check-byte-{chk}"}
+        b = _rand_body(rng, 23)
+        f0 = acframe.build(bytes(b), 3, check="crc")
+        yield {"body": bytes(b), "check": "crc", "header_fill": bytes([(f0[-1] - v) & 0xFF, 0, 0, 0, 0]), "label": "frame-checksum-value"}
+
+
+def _histories(ctx, rng):
+    quick = ctx.tier == "quick"
+    for _ in range(150 if quick else 6000):
+        b = _rand_body(rng, rng.randint(16, 40))
+        # the same report twice with a local (never applied) edit of the attributes in between
+        yield {"body": bytes(b), "check": rng.choice(["crc", "sum"]), "prev_body": bytes(b), "edit": True}
+        # an unsolicited report pushed on the idle connection, then the state changes, then the refresh
+        yield {"body": bytes(_rand_body(rng, rng.randint(16, 40))), "check": rng.choice(["crc", "sum"]),
+               "prev_body": bytes(_rand_body(rng, 23)), "push_body": bytes(_rand_body(rng, rng.choice([23, 24, 30]))),
+               "push_type": rng.choice([3, 4, 5]), "edit": rng.random() < 0.3}
+
+
 def generate(ctx, rng):
     batch = []
     n = 0
+    for it in list(_check_values(ctx, rng)) + list(_histories(ctx, rng)):
+        batch.append(it)
+        if len(batch) == BATCH:
+            yield ("xbatch", n), {"items": batch}
+            n += 1
+            batch = []
+    if batch:
+        yield ("xbatch", n), {"items": batch}
+        n += 1
+    batch = []
     for b, chk, prev in _with_history(ctx, rng):
         batch.append({"body": bytes(b), "check": chk, "prev_body": bytes(prev)})
         if len(batch) == BATCH:
@@ -141,10 +182,25 @@ def run_case(ctx, case):
     async def go(loop):
         for it in items:
             ac = AC(ip=dev.host, port=dev.port, device_id=dev.device_id)
+            dev.ac.header_fill = bytes(it.get("header_fill") or bytes(5))
             if it.get("prev_body"):
                 dev.ac.raw_state_body = bytes(it["prev_body"])
-                dev.ac.report_check = "crc"
+                dev.ac.report_check = it["check"] if it.get("edit") else "crc"
                 await ac.refresh()
+            if it.get("edit"):
+                # local, never applied edits
+                ac.power_state = not ac.power_state
+                ac.target_temperature = 17.0 if ac.target_temperature != 17.0 else 29.5
+                ac.operational_mode = AC.OperationalMode.HEAT if ac.operational_mode != AC.OperationalMode.HEAT else AC.OperationalMode.COOL
+                ac.fan_speed = 33 if ac.fan_speed != 33 else 66
+                ac.eco, ac.turbo, ac.sleep = not ac.eco, not ac.turbo, not ac.sleep
+                ac.target_humidity = 77 if ac.target_humidity != 77 else 33
+            if it.get("push_body"):
+                dev.ac.raw_state_body = bytes(it["push_body"])
+                for c in dev.conns:
+                    if not c.closed:
+                        c.emit([(0, dev.wrap(c, dev.ac.state_frame(it["push_type"])))])
+                await asyncio.sleep(0.05)
             dev.ac.raw_state_body = bytes(it["body"])
             dev.ac.report_check = it["check"]
             try:
@@ -157,7 +213,9 @@ def run_case(ctx, case):
     H.run_virtual(go, net)
     for it, status, val in results:
         body = bytes(it["body"])
-        ctx.count(body + it["check"].encode() + bytes(it.get("prev_body") or b""), kind="refresh-after-earlier-report" if it.get("prev_body") else f"refresh-len{len(body)}" if len(body) in (16, 19, 20, 21, 22, 40) else "refresh",
+        ctx.count(body + it["check"].encode() + bytes(it.get("prev_body") or b"") + bytes(it.get("push_body") or b"") + bytes(it.get("header_fill") or b""),
+                  kind="refresh-after-pushed-report-and-change" if it.get("push_body") else "refresh-same-report-after-local-edit" if it.get("edit") else
+                  it["label"] if it.get("label") else "refresh-after-earlier-report" if it.get("prev_body") else f"refresh-len{len(body)}" if len(body) in (16, 19, 20, 21, 22, 40) else "refresh",
                   sample={"body": body, "check": it["check"]} if len(body) == 23 else None)
         one = {"items": [it]}
         if status == "raised":
